@@ -324,7 +324,7 @@ Section PdrTerminationMain.
   (** what the loop returns, for EVERY fuel *)
   Definition loop_post (fuel bf : nat) (st : pst) (r : res lit St EM (verdict W * pst)) : Prop :=
     match r with
-    | Ok (v, st') => v = VUnknown W -> frontier' st' <= S (length states)
+    | Ok (v, st') => v = VUnknown W -> frontier' st' <= S (length states) /\ pinv st'
     | Fuel => fuel <= Psi st \/ bf <= pdr_block_fuel_bound (length states)
     | _ => False
     end.
@@ -335,7 +335,7 @@ Section PdrTerminationMain.
   Proof.
     induction fuel as [| fuel IH]; intros st Hbmc Hinv Hb Hfr; [left; lia |].
     cbn [PdrImpl.pdr_loop]. rewrite (frontier_eq lit St EM).
-    destruct (frontier' st <=? MAX_FRAMES) eqn:Emax; [| intros _; exact Hfr].
+    destruct (frontier' st <=? MAX_FRAMES) eqn:Emax; [| intros _; split; [exact Hfr | exact Hinv]].
     apply Nat.leb_le in Emax.
     destruct (get_bad_cube_ok st) as (ob & st1 & Eg). rewrite Eg.
     destruct (get_bad_cube_spec lit lit_eqb St cube_of_state EM solve lit_holds bad0 step0 trans bad solver_ok _ _ _ Eg) as (Hsem & Hob).
@@ -395,7 +395,7 @@ Section PdrTerminationMain.
       + (* a counterexample: the BMC fallback decides *)
         destruct bmc_result as [w | | eb] eqn:Ebmc; cbn [loop_post].
         * discriminate.
-        * intros _. rewrite HN2, HN1. exact Hfr.
+        * intros _. split; [rewrite HN2, HN1; exact Hfr | exact Hinv2].
         * now apply (Hbmc eb).
     - (* no bad state in the frontier frame: new frame, propagation *)
       destruct Hob as (H0 & H1).
@@ -476,7 +476,7 @@ Section PdrTerminationTheorems.
   Lemma run_post fuel bf :
     finite_states -> oracle_ok -> no_faults ->
     match run fuel bf with
-    | Ok (v, st') => v = VUnknown W -> frontier' st' <= S (length states)
+    | Ok (v, st') => v = VUnknown W -> frontier' st' <= S (length states) /\ pinv st'
     | Fuel => fuel <= pdr_fuel_bound (length states) \/ bf <= pdr_block_fuel_bound (length states)
     | _ => False
     end.
@@ -514,7 +514,8 @@ Section PdrTerminationTheorems.
     (MAX_FRAMES < length (p_frames lit St EM st') /\ MAX_FRAMES <= length states) \/
     (bmc_result = BmcOther W EM /\ exists d, d <= MAX_FRAMES /\ unsafe_at St bad0 step0 trans bad d).
   Proof.
-    intros Hfin Hor Hnf H. pose proof (run_post fuel bf Hfin Hor Hnf) as Hp. rewrite H in Hp. specialize (Hp eq_refl).
+    intros Hfin Hor Hnf H. pose proof (run_post fuel bf Hfin Hor Hnf) as Hp. rewrite H in Hp. destruct (Hp eq_refl) as [Hp' _].
+    clear Hp. rename Hp' into Hp.
     destruct (pdr_model_unknown_only lit lit_eqb St cube_of_state W EM solve cmd_fail n_init gen_on has_bads bmc_result
                                      lit_holds bad0 step0 trans bad fuel bf st' Hor H) as [Hl | Hr]; [left | now right].
     unfold PdrImplProofs.frontier' in Hp. split; [exact Hl | lia].
@@ -542,5 +543,31 @@ Section PdrTerminationTheorems.
                                  lit_holds bad0 step0 trans bad fuel bf w st' Hor H).
     - right. right. exists st'. split; [exact H |].
       destruct (pdr_model_unknown_only_at_limit fuel bf st' Hfin Hor Hnf H) as [[_ Hl] | Hr]; [lia | exact Hr].
+  Qed.
+
+  (** every counterexample of at most MAX_FRAMES steps is found, whatever the size of the (finite) state
+      space: the answer is Fail (or the BMC oracle gives up) *)
+  Theorem pdr_model_fail_complete fuel bf d :
+    finite_states -> oracle_ok -> no_faults ->
+    unsafe_at St bad0 step0 trans bad d -> d <= MAX_FRAMES ->
+    pdr_fuel_bound (length states) < fuel -> pdr_block_fuel_bound (length states) < bf ->
+    (exists w st', run fuel bf = Ok (VFail W w, st') /\ bmc_result = BmcFail W EM w) \/
+    (exists st', run fuel bf = Ok (VUnknown W, st') /\ bmc_result = BmcOther W EM).
+  Proof.
+    intros Hfin Hor Hnf Hu Hd Hf Hbf.
+    destruct (pdr_model_terminates fuel bf Hfin Hor Hnf Hf Hbf) as (v & st' & H).
+    destruct v as [| w |].
+    - exfalso.
+      exact (pdr_model_success_sound lit lit_eqb St cube_of_state W EM solve cmd_fail n_init gen_on has_bads bmc_result
+                                     lit_holds bad0 step0 trans bad fuel bf st' Hor H d Hu).
+    - left. exists w, st'. split; [exact H |].
+      exact (proj1 (pdr_model_fail_real lit lit_eqb St cube_of_state W EM solve cmd_fail n_init gen_on has_bads bmc_result
+                                        lit_holds bad0 step0 trans bad fuel bf w st' Hor H)).
+    - right. exists st'. split; [exact H |].
+      pose proof (run_post fuel bf Hfin Hor Hnf) as Hp. rewrite H in Hp. destruct (Hp eq_refl) as [_ Hinv'].
+      destruct (pdr_model_unknown_only lit lit_eqb St cube_of_state W EM solve cmd_fail n_init gen_on has_bads bmc_result
+                                       lit_holds bad0 step0 trans bad fuel bf st' Hor H) as [Hl | [Hr _]]; [| exact Hr].
+      exfalso. apply (safe_below lit St EM lit_holds bad0 step0 trans bad st' Hinv' d); [| exact Hu].
+      unfold PdrImplProofs.frontier'. lia.
   Qed.
 End PdrTerminationTheorems.
